@@ -249,6 +249,21 @@ def run_case(case, ctx):
                 other=other,
             )
 
+    # ---- mixed forms: the first k parameters positionally (values or None placeholders), the rest by keyword ----
+    if fam != "lnnf" and len(names) >= 2:
+        for meth, arg in (("cdf", x), ("pdf", x), ("icdf", probs)):
+            want = getattr(d, meth)(arg)
+            for k in range(1, len(names)):
+                got = getattr(base, meth)(arg, *[p[n] for n in names[:k]], **{n: p[n] for n in names[k:]})
+                ctx.check("rel.explicit-eq-instance", _nan_equal(got, want), f"{fam}.{meth}: first {k} parameter(s) positional, the rest by keyword != instance built with them", family=fam, params=p, method=meth)
+                # None placeholders keep the instance's value
+                last = names[-1]
+                mixed = dict(other)
+                mixed[last] = p[last]
+                got2 = getattr(base, meth)(arg, *([None] * k), **{last: p[last]}) if k < len(names) - 0 and last not in names[:k] else None
+                if got2 is not None:
+                    ctx.check("rel.explicit-eq-instance", _nan_equal(got2, getattr(_mk(fam, mixed), meth)(arg)), f"{fam}.{meth}: {k} positional None placeholder(s) and {last} by keyword != instance built with it", family=fam, parameter=last, method=meth, value=p[last], other=other)
+
     # ---- history: evaluate, change the parameters of the SAME object (assignment, then a fit), evaluate again ----
     hist = _mk(fam, p)
     hist.cdf(x)
